@@ -3,9 +3,18 @@ the monitor set `which` first, then plain symbolic arguments, and returns "" or 
 violation text.  Harness modules wrap them with vf.api.condition."""
 import vf; vf.setup_paths()
 from vf import s2, sim, stubs
-from vf.stubs import pick
+from vf.stubs import pick, cbool, cint
 
 ERRS = ["Boom", "States.Timeout", "States.TaskFailed", "Custom.Error"]
+
+
+def _run(*a, **k):
+    """Scenarios whose arguments were all made concrete by explicit forks (cbool/cint/pick) run the engine outside
+    the tracer: only the schedule vector is symbolic and the solver closes the schedule space (~100x faster, which
+    is what buys fan-out 3 and nesting).  map_items / map_conc keep the tracer on: their symbolic item count and
+    MaxConcurrency flow into the engine's Range arithmetic."""
+    k.setdefault("fast", True)
+    return s2.run_scenario(*a, **k)
 
 
 def task(fn, **kw):
@@ -24,6 +33,7 @@ def worker(fail, err, tag):
 
 def seq_chain(which, fail: bool, ei: int, typ: int, c0: int, c1: int):
     """Pass -> Task(f) -> Wait -> Succeed, STANDARD or EXPRESS; task outcome symbolic."""
+    fail = cbool(fail); typ = cint(typ, 0, 1)
     asl = {"StartAt": "P", "States": {
         "P": {"Type": "Pass", "Result": {"p": 1}, "ResultPath": "$.r", "Next": "T"},
         "T": task("f", ResultPath="$.t", Next="W"),
@@ -36,11 +46,12 @@ def seq_chain(which, fail: bool, ei: int, typ: int, c0: int, c1: int):
         expect = ("FAILED", err)
     else:
         expect = ("SUCCEEDED", {"x": 1, "r": {"p": 1}, "t": {"ok": "f", "in": {"x": 1, "r": {"p": 1}}}})
-    return s2.run_scenario(asl, data, [c0, c1], {"f": worker(fail, err, "f")}, which, sm_type, expect)
+    return _run(asl, data, [c0, c1], {"f": worker(fail, err, "f")}, which, sm_type, expect)
 
 
 def par2(which, fa: bool, fb: bool, ei: int, c0: int, c1: int, c2: int, c3: int, c4: int, c5: int, c6: int, c7: int):
     """Parallel with two Task branches, no Retry/Catch; every failure assignment."""
+    fa = cbool(fa); fb = cbool(fb)
     asl = {"StartAt": "P", "States": {"P": {"Type": "Parallel", "End": True, "Branches": [
         {"StartAt": "A", "States": {"A": task("fa", End=True)}},
         {"StartAt": "B", "States": {"B": task("fb", End=True)}}]}}}
@@ -49,12 +60,13 @@ def par2(which, fa: bool, fb: bool, ei: int, c0: int, c1: int, c2: int, c3: int,
         expect = ("FAILED", err)
     else:
         expect = ("SUCCEEDED", [{"ok": "fa", "in": {"x": 1}}, {"ok": "fb", "in": {"x": 1}}])
-    return s2.run_scenario(asl, {"x": 1}, [c0, c1, c2, c3, c4, c5, c6, c7],
+    return _run(asl, {"x": 1}, [c0, c1, c2, c3, c4, c5, c6, c7],
                            {"fa": worker(fa, err, "fa"), "fb": worker(fb, err, "fb")}, which, "STANDARD", expect)
 
 
 def par_pass_task(which, fb: bool, c0: int, c1: int, c2: int, c3: int, c4: int, c5: int):
     """Parallel: branch 0 = Pass -> Pass, branch 1 = Task; then a Pass after the join."""
+    fb = cbool(fb)
     asl = {"StartAt": "P", "States": {
         "P": {"Type": "Parallel", "Next": "Z", "ResultPath": "$.par", "Branches": [
             {"StartAt": "A1", "States": {"A1": {"Type": "Pass", "Result": 1, "ResultPath": "$.a", "Next": "A2"},
@@ -65,7 +77,7 @@ def par_pass_task(which, fb: bool, c0: int, c1: int, c2: int, c3: int, c4: int, 
         expect = ("FAILED", "Boom")
     else:
         expect = ("SUCCEEDED", {"x": 1, "par": [{"x": 1, "a": 1}, {"ok": "fb", "in": {"x": 1}}], "z": "z"})
-    return s2.run_scenario(asl, {"x": 1}, [c0, c1, c2, c3, c4, c5], {"fb": worker(fb, "Boom", "fb")}, which, "STANDARD", expect)
+    return _run(asl, {"x": 1}, [c0, c1, c2, c3, c4, c5], {"fb": worker(fb, "Boom", "fb")}, which, "STANDARD", expect)
 
 
 def map_items(which, n: int, mc: int, failing: int, c0: int, c1: int, c2: int, c3: int, c4: int, c5: int, c6: int, c7: int):
@@ -87,6 +99,7 @@ def map_items(which, n: int, mc: int, failing: int, c0: int, c1: int, c2: int, c
 
 def two_execs(which, f1: bool, typ: int, c0: int, c1: int, c2: int, c3: int, c4: int, c5: int, c6: int, c7: int):
     """Two concurrent executions of Task(f) -> Pass on one engine; the first request to f fails iff f1."""
+    f1 = cbool(f1); typ = cint(typ, 0, 1)
     asl = {"StartAt": "T", "States": {"T": task("f", ResultPath="$.t", Next="Z"),
                                       "Z": {"Type": "Pass", "Result": 1, "ResultPath": "$.z", "End": True}}}
     n = [0]
@@ -106,13 +119,14 @@ def two_execs(which, f1: bool, typ: int, c0: int, c1: int, c2: int, c3: int, c4:
         if res != sorted(str(x) for x in want):
             return "outcomes %s, expected %s" % (res, want)
         return ""
-    return s2.run_scenario(asl, {"x": 1}, [c0, c1, c2, c3, c4, c5, c6, c7], {"f": w}, which, sm_type, None,
+    return _run(asl, {"x": 1}, [c0, c1, c2, c3, c4, c5, c6, c7], {"f": w}, which, sm_type, None,
                            n_exec=2, extra_check=chk)
 
 
 def start_routes(which, route: int, typ: int, c0: int):
     """The start event carries (0) only the machine id, (1) a pre-set Execution name, (2) a full
     StartExecution-shaped Execution block; the record/notifications must use what was supplied."""
+    route = cint(route, 0, 2); typ = cint(typ, 0, 1)
     asl = {"StartAt": "Z", "States": {"Z": {"Type": "Pass", "Result": 1, "ResultPath": "$.z", "End": True}}}
     sm_type = "EXPRESS" if typ == 1 else "STANDARD"
     exarn = "arn:aws:states:local:0123456789:execution:m:given"
@@ -132,7 +146,7 @@ def start_routes(which, route: int, typ: int, c0: int):
         if route in (1, 2) and arns[0] != exarn:
             return "execution ARN %s does not use the supplied name" % arns[0]
         return ""
-    return s2.run_scenario(asl, {"x": 1}, [c0], {}, which, sm_type, ("SUCCEEDED", {"x": 1, "z": 1}),
+    return _run(asl, {"x": 1}, [c0], {}, which, sm_type, ("SUCCEEDED", {"x": 1, "z": 1}),
                            start_ctx=ctx, extra_check=chk)
 
 
@@ -158,6 +172,7 @@ def _fanout_checks(n_branches, branch_state_names, after_state=None, fail_marker
 
 def par_catch(which, fa: bool, fb: bool, sib: int, c0: int, c1: int, c2: int, c3: int, c4: int, c5: int, c6: int, c7: int):
     """Parallel with Catch(States.ALL) -> Recover. Branch A = Task fa; branch B = Task fb / Wait / Pass-Pass (sib)."""
+    fa = cbool(fa); fb = cbool(fb); sib = cint(sib, 0, 2)
     if sib == 0:
         B = {"StartAt": "B", "States": {"B": task("fb", End=True)}}
     elif sib == 1:
@@ -192,11 +207,12 @@ def par_catch(which, fa: bool, fb: bool, sib: int, c0: int, c1: int, c2: int, c3
             if got != ("SUCCEEDED", {"x": 1, "par": [{"ok": "fa", "in": {"x": 1}}, bout]}):
                 return "outcome %r" % (got,)
         return ""
-    return s2.run_scenario(asl, {"x": 1}, [c0, c1, c2, c3, c4, c5, c6, c7], workers, which, "STANDARD", None, extra_check=chk)
+    return _run(asl, {"x": 1}, [c0, c1, c2, c3, c4, c5, c6, c7], workers, which, "STANDARD", None, extra_check=chk)
 
 
 def par_retry(which, nfail: int, sib: int, c0: int, c1: int, c2: int, c3: int, c4: int, c5: int, c6: int, c7: int, c8: int, c9: int):
     """Parallel with Retry(MaxAttempts 1): fa fails its first `nfail` invocations. Sibling B = Task fb / Wait."""
+    nfail = cint(nfail, 0, 2); sib = cint(sib, 0, 1)
     if sib == 0:
         B = {"StartAt": "B", "States": {"B": task("fb", End=True)}}
     else:
@@ -220,7 +236,7 @@ def par_retry(which, nfail: int, sib: int, c0: int, c1: int, c2: int, c3: int, c
         expect = ("FAILED", "Boom")
     else:
         expect = ("SUCCEEDED", [{"ok": "fa"}, bout])
-    return s2.run_scenario(asl, {"x": 1}, [c0, c1, c2, c3, c4, c5, c6, c7, c8, c9], workers, which, "STANDARD", expect, max_steps=120)
+    return _run(asl, {"x": 1}, [c0, c1, c2, c3, c4, c5, c6, c7, c8, c9], workers, which, "STANDARD", expect, max_steps=120)
 
 
 def map_conc(which, n: int, mc: int, c0: int, c1: int, c2: int, c3: int, c4: int, c5: int, c6: int, c7: int, c8: int, c9: int):
@@ -260,7 +276,7 @@ def par3(which, c0: int, c1: int, c2: int, c3: int, c4: int, c5: int, c6: int, c
         {"StartAt": "A", "States": {"A": task("fa", End=True)}},
         {"StartAt": "B", "States": {"B": {"Type": "Pass", "Result": "b", "End": True}}},
         {"StartAt": "C", "States": {"C": task("fc", End=True)}}]}}}
-    return s2.run_scenario(asl, {"x": 1}, [c0, c1, c2, c3, c4, c5, c6, c7, c8, c9],
+    return _run(asl, {"x": 1}, [c0, c1, c2, c3, c4, c5, c6, c7, c8, c9],
                            {"fa": lambda r: {"ok": "fa"}, "fc": lambda r: {"ok": "fc"}}, which, "STANDARD",
                            ("SUCCEEDED", [{"ok": "fa"}, "b", {"ok": "fc"}]), max_steps=120)
 
@@ -327,6 +343,7 @@ BIG = "a" * 262200
 def seq_misc(which, v: int, typ: int, c0: int, c1: int):
     """Single-state outcomes not covered by seq_chain: Choice (match / no match / oversize output),
     Fail, runtime path failure, ResultPath failure, missing Next."""
+    v = cint(v, 0, 7); typ = cint(typ, 0, 1)
     S = {"Type": "Succeed"}
     data = {"x": 1}
     expect = None
@@ -357,7 +374,7 @@ def seq_misc(which, v: int, typ: int, c0: int, c1: int):
         expect = ("FAILED", "States.DataLimitExceeded")
     asl = {"StartAt": "A", "States": {"A": first, "S": S}}
     sm_type = "EXPRESS" if typ == 1 else "STANDARD"
-    return s2.run_scenario(asl, data, [c0, c1], {"f": worker(False, "", "f")}, which, sm_type, expect)
+    return _run(asl, data, [c0, c1], {"f": worker(False, "", "f")}, which, sm_type, expect)
 
 
 SCN["seq_misc"] = (["0 <= v <= 7 and 0 <= typ < 2"], 240, 600, ("quick", "thorough"))
@@ -369,13 +386,14 @@ def par_wait_fail(which, c0: int, c1: int, c2: int, c3: int, c4: int, c5: int):
     asl = {"StartAt": "P", "States": {"P": {"Type": "Parallel", "End": True, "Branches": [
         {"StartAt": "A", "States": {"A": task("fa", End=True)}},
         {"StartAt": "B", "States": {"B": {"Type": "Wait", "Seconds": 5, "Next": "B2"}, "B2": {"Type": "Pass", "End": True}}}]}}}
-    return s2.run_scenario(asl, {"x": 1}, [c0, c1, c2, c3, c4, c5], {"fa": worker(True, "Boom", "fa")}, which, "STANDARD",
+    return _run(asl, {"x": 1}, [c0, c1, c2, c3, c4, c5], {"fa": worker(True, "Boom", "fa")}, which, "STANDARD",
                            ("FAILED", "Boom"), extra_check=_fanout_checks(2, ("A", "B", "B2"), None, "ParallelStateFailed"))
 
 
 def par_branch_retry(which, bfail: bool, c0: int, c1: int, c2: int, c3: int, c4: int, c5: int, c6: int, c7: int):
     """Branch A = Task fa with its own Retry (2 s interval) that fails once and then succeeds; branch B = Task fb
     that (bfail) fails unhandled while A is waiting for its retry delay. A terminated branch must not be retried."""
+    bfail = cbool(bfail)
     asl = {"StartAt": "P", "States": {"P": {"Type": "Parallel", "End": True, "Branches": [
         {"StartAt": "A", "States": {"A": task("fa", End=True, Retry=[{"ErrorEquals": ["Flaky"], "IntervalSeconds": 2, "MaxAttempts": 2, "BackoffRate": 1.0}])}},
         {"StartAt": "B", "States": {"B": task("fb", End=True)}}]}}}
@@ -390,19 +408,20 @@ def par_branch_retry(which, bfail: bool, c0: int, c1: int, c2: int, c3: int, c4:
         if bfail and n[0] > 1 and False:
             return ""
         return _fanout_checks(2, ("A", "B"), None, "ParallelStateFailed")(run, inst, mon)
-    return s2.run_scenario(asl, {"x": 1}, [c0, c1, c2, c3, c4, c5, c6, c7], {"fa": wa, "fb": worker(bfail, "Boom", "fb")},
+    return _run(asl, {"x": 1}, [c0, c1, c2, c3, c4, c5, c6, c7], {"fa": wa, "fb": worker(bfail, "Boom", "fb")},
                            which, "STANDARD", expect, extra_check=chk, max_steps=120)
 
 
 def par_inner_catch(which, bfail: bool, c0: int, c1: int, c2: int, c3: int, c4: int, c5: int, c6: int, c7: int):
     """Branch A: Task fa fails, is caught INSIDE the branch and goes on to a 5 s Wait; branch B: Task fb that
     (bfail) fails unhandled afterwards. The caught branch's Wait must be cancelled with the rest."""
+    bfail = cbool(bfail)
     asl = {"StartAt": "P", "States": {"P": {"Type": "Parallel", "End": True, "Branches": [
         {"StartAt": "A", "States": {"A": task("fa", Next="AZ", Catch=[{"ErrorEquals": ["States.ALL"], "Next": "AW"}]),
                                     "AW": {"Type": "Wait", "Seconds": 5, "Next": "AZ"}, "AZ": {"Type": "Pass", "Result": "a", "End": True}}},
         {"StartAt": "B", "States": {"B": {"Type": "Wait", "Seconds": 1, "Next": "B1"}, "B1": task("fb", End=True)}}]}}}
     expect = ("FAILED", "Boom") if bfail else ("SUCCEEDED", ["a", {"ok": "fb", "in": {"x": 1}}])
-    return s2.run_scenario(asl, {"x": 1}, [c0, c1, c2, c3, c4, c5, c6, c7], {"fa": worker(True, "Oops", "fa"), "fb": worker(bfail, "Boom", "fb")},
+    return _run(asl, {"x": 1}, [c0, c1, c2, c3, c4, c5, c6, c7], {"fa": worker(True, "Oops", "fa"), "fb": worker(bfail, "Boom", "fb")},
                            which, "STANDARD", expect, extra_check=_fanout_checks(2, ("A", "AW", "AZ", "B", "B1"), None, "ParallelStateFailed"), max_steps=120)
 
 
@@ -414,6 +433,7 @@ SCN["par_inner_catch"] = ([], 600, 1800, ("quick", "thorough"))
 def nested_par(which, fail: bool, c0: int, c1: int, c2: int, c3: int, c4: int, c5: int, c6: int, c7: int, c8: int, c9: int):
     """Two levels of nesting: outer Parallel P = [inner Parallel Q = [Pass L0 -> Pass Leaf1, Task fq], Task fo].
     fo fails iff `fail`; then nothing of the inner group may run on."""
+    fail = cbool(fail)
     inner = {"Type": "Parallel", "End": True, "Branches": [
         {"StartAt": "L0", "States": {"L0": {"Type": "Pass", "Result": "l0", "Next": "Leaf1"}, "Leaf1": {"Type": "Pass", "Result": "l1", "End": True}}},
         {"StartAt": "QT", "States": {"QT": task("fq", End=True)}}]}
@@ -421,7 +441,7 @@ def nested_par(which, fail: bool, c0: int, c1: int, c2: int, c3: int, c4: int, c
         {"StartAt": "Q", "States": {"Q": inner}},
         {"StartAt": "O", "States": {"O": task("fo", End=True)}}]}}}
     expect = ("FAILED", "Boom") if fail else ("SUCCEEDED", [["l1", {"ok": "fq", "in": {"x": 1}}], {"ok": "fo", "in": {"x": 1}}])
-    return s2.run_scenario(asl, {"x": 1}, [c0, c1, c2, c3, c4, c5, c6, c7, c8, c9], {"fq": worker(False, "", "fq"), "fo": worker(fail, "Boom", "fo")},
+    return _run(asl, {"x": 1}, [c0, c1, c2, c3, c4, c5, c6, c7, c8, c9], {"fq": worker(False, "", "fq"), "fo": worker(fail, "Boom", "fo")},
                            which, "STANDARD", expect, extra_check=_fanout_checks(2, ("L0", "Leaf1", "QT", "Q", "O"), None, "ParallelStateFailed"), max_steps=150)
 
 
@@ -432,6 +452,7 @@ def poison_midrun(which, kind: int, c0: int, c1: int, c2: int, c3: int):
     """A poison message (not JSON / JSON scalar / object without context / unknown machine) arrives on the
     instance queue while a Task event of a healthy execution is parked unacknowledged. The poison must be
     acknowledged by itself and the healthy execution must be unaffected."""
+    kind = cint(kind, 0, 3)
     asl = {"StartAt": "T", "States": {"T": task("f", ResultPath="$.t", Next="Z"), "Z": {"Type": "Pass", "Result": 1, "ResultPath": "$.z", "End": True}}}
     bodies = ["{not json", "5", '{"data": {}}', '{"data": {}, "context": {"StateMachine": {"Id": "arn:aws:states:local:0123456789:stateMachine:nope"}}}']
     body = pick(bodies, kind)
@@ -447,7 +468,7 @@ def poison_midrun(which, kind: int, c0: int, c1: int, c2: int, c3: int):
         if len(acks) != 1:
             return "C18/C19 poison message acknowledged %d times" % len(acks)
         return ""
-    return s2.run_scenario(asl, {"x": 1}, [c0, c1, c2, c3], {"f": w}, which, "STANDARD",
+    return _run(asl, {"x": 1}, [c0, c1, c2, c3], {"f": w}, which, "STANDARD",
                            ("SUCCEEDED", {"x": 1, "t": {"ok": 1}, "z": 1}), extra_check=chk)
 
 
@@ -458,6 +479,7 @@ def fan_retry_inner_retry(which, kind: int, nfail: int, c0: int, c1: int, c2: in
     """A Parallel (kind 0) / Map (kind 1) state with its own Retry (MaxAttempts 1) whose branch Task has a Retry
     (MaxAttempts 1) too; the task fails its first `nfail` invocations. The retry budgets are per state: the inner
     Task gets 2 attempts per attempt of the fan-out state, the fan-out state gets 2 attempts."""
+    kind = cint(kind, 0, 1); nfail = cint(nfail, 0, 4)
     inner_retry = [{"ErrorEquals": ["Boom"], "IntervalSeconds": 1, "MaxAttempts": 1, "BackoffRate": 1.0}]
     outer_retry = [{"ErrorEquals": ["Boom"], "IntervalSeconds": 3, "MaxAttempts": 1, "BackoffRate": 1.0}]
     A = {"StartAt": "A", "States": {"A": task("fa", End=True, Retry=inner_retry)}}
@@ -487,7 +509,7 @@ def fan_retry_inner_retry(which, kind: int, nfail: int, c0: int, c1: int, c2: in
         expect = ("FAILED", "Boom")
     else:
         expect = ("SUCCEEDED", [{"ok": "fa"}, "b"] if kind == 0 else [{"ok": "fa"}])
-    return s2.run_scenario(asl, data, [c0, c1, c2, c3, c4, c5], {"fa": wa}, which, "STANDARD", expect, extra_check=chk, max_steps=160)
+    return _run(asl, data, [c0, c1, c2, c3, c4, c5], {"fa": wa}, which, "STANDARD", expect, extra_check=chk, max_steps=160)
 
 
 SCN["fan_retry_inner_retry"] = (["0 <= kind < 2 and 0 <= nfail <= 4"], 600, 1800, ("quick", "thorough"))
@@ -497,6 +519,7 @@ def nested_inner_catch(which, mode: int, q2: int, c0: int, c1: int, c2: int, c3:
     """Outer Parallel P = [inner Parallel Q = [Task fq1 (fails), Q2 = Wait 5 s (q2 == 0) / Task fq2 (q2 == 1)], Task fo].
     Q handles its own failure with a Catch (mode 0) or a Retry (mode 1, second attempt succeeds): only Q's branches
     are cut short - the outer sibling fo, which is not part of the failed Parallel state, must run on undisturbed."""
+    mode = cint(mode, 0, 1); q2 = cint(q2, 0, 1)
     Q2 = {"Type": "Wait", "Seconds": 5, "End": True} if q2 == 0 else task("fq2", End=True)
     inner = {"Type": "Parallel", "Next": "QR", "Branches": [
         {"StartAt": "Q1", "States": {"Q1": task("fq1", End=True)}},
@@ -519,8 +542,8 @@ def nested_inner_catch(which, mode: int, q2: int, c0: int, c1: int, c2: int, c3:
     workers = {"fq1": wq1, "fo": worker(False, "", "fo")}
     if q2 == 1:
         workers["fq2"] = worker(False, "", "fq2")
-    return s2.run_scenario(asl, {"x": 1}, [c0, c1, c2, c3, c4, c5, c6, c7, c8, c9, c10, c11], workers,
-                           which, "STANDARD", expect, max_steps=200, fast=True)
+    return _run(asl, {"x": 1}, [c0, c1, c2, c3, c4, c5, c6, c7, c8, c9, c10, c11], workers,
+                           which, "STANDARD", expect, max_steps=200)
 
 
 SCN["nested_inner_catch"] = (["0 <= mode < 2 and 0 <= q2 < 2"], 900, 3000, ("quick", "thorough"))
